@@ -232,8 +232,9 @@ impl RecvModel {
                 }
             }
             self.have = out;
+            // an empty frame carries no data: it does not move the largest offset (a FIN does, through the final size)
+            self.largest = self.largest.max(hi);
         }
-        self.largest = self.largest.max(hi);
     }
     fn complete(&self) -> bool {
         match self.final_size {
@@ -543,10 +544,14 @@ impl Fx {
                     let raw = wire::stream(self.raw_sid(k), off, &vec![0xa5; l as usize], *fin);
                     self.legit(raw, "STREAM")?;
                     let e = self.recv.get_mut(&k).expect("model exists");
-                    self.conn_used += end.max(e.largest) - e.largest;
+                    if l > 0 || *fin {
+                        // RFC 9000 §4.5: the final size counts against the connection window whatever was received
+                        self.conn_used += end.max(e.largest) - e.largest;
+                    }
                     e.add(off, end);
                     if *fin {
                         e.final_size = Some(end);
+                        e.largest = e.largest.max(end);
                     }
                     if e.complete() {
                         e.terminal = true;
@@ -714,7 +719,9 @@ pub fn probe(h: &StreamHist, forged: &Forged) -> ProbeResult {
                 union(&mut allowed, &mut case, &["FrameEncoding", "FlowControl"], "stream:offset+len-overflow");
                 legal = false;
             }
-            if on_stream && !m.terminal {
+            // a frame with neither data nor FIN conveys nothing that the limits could be applied to
+            let conveys = l > 0 || *fin;
+            if on_stream && !m.terminal && conveys {
                 let n0 = allowed.len();
                 if let Some(f) = m.final_size {
                     if end > f {
@@ -736,8 +743,8 @@ pub fn probe(h: &StreamHist, forged: &Forged) -> ProbeResult {
                     legal = false;
                 }
             }
-            res.expect = Some(if m.terminal && legal {
-                Expect { case: "stream:closed".into(), allowed: vec![], legal: true }
+            res.expect = Some(if (m.terminal || !conveys) && legal {
+                Expect { case: "stream:closed-or-empty".into(), allowed: vec![], legal: true }
             } else if allowed.is_empty() && legal && case.is_empty() {
                 Expect { case: "stream:legal".into(), allowed: vec!["Ok"], legal: true }
             } else {
